@@ -26,4 +26,4 @@ Deliverables, all inside {d}/seed_out/ :
   2. demo.py     - a standalone demonstration script that exits 0 when the property holds on the scenario it exercises and exits 1 (printing what went wrong) when it is violated. It must FAIL (exit 1) with your change applied and PASS (exit 0) without it. It should only use the public behaviour named in the property.
   3. meta.json   - {{"property": "{p['id']}", "summary": "...what was changed...", "needs": "...what specific condition is needed for the breakage to show...", "files": [...], "ran": ["commands you ran and their outcomes"]}}
 
-Before you finish: verify yourself that (a) demo.py exits 1 with the patch and 0 without it (use `git stash` / `git checkout -- src` to switch), (b) the existing tests named above have the same results with and without the patch, then leave the worktree with the source restored to HEAD (clean `git status` apart from seed_out/). Reply with a short summary of the change and what is needed to trigger it.""")
+Before you finish: verify yourself that (a) demo.py exits 1 with the patch and 0 without it (switch with `git apply seed_out/patch.diff` and `git checkout -- src`; do NOT use `git stash`: the stash is shared between all worktrees of the repository and other jobs use it concurrently), (b) the existing tests named above have the same results with and without the patch, then leave the worktree with the source restored to HEAD (clean `git status` apart from seed_out/). Reply with a short summary of the change and what is needed to trigger it.""")
